@@ -17,7 +17,9 @@ fn contents(rng: &mut Rng, n: usize, kind: usize) -> Vec<f32> {
     match kind {
         0 => (0..n).map(|i| i as f32).collect(),
         1 => (0..n).map(|_| rng.f32_in(-100.0, 100.0)).collect(),
-        _ => (0..n).map(|i| *rng.pick(&[0.0f32, -0.0, 1e-45, -3.4e38, 3.4e38, 1.0]) + if i % 2 == 0 { 0.0 } else { i as f32 }).collect(),
+        // special values, NaN and the infinities included: the element sequence is compared
+        // bit pattern by bit pattern (NaN equals NaN), never by value
+        _ => (0..n).map(|i| if i % 7 == 3 { *rng.pick(&[f32::NAN, f32::INFINITY, f32::NEG_INFINITY]) } else { *rng.pick(&[0.0f32, -0.0, 1e-45, -3.4e38, 3.4e38, 1.0]) + if i % 2 == 0 { 0.0 } else { i as f32 } }).collect(),
     }
 }
 
@@ -181,7 +183,7 @@ impl Monitor for C14 {
         }
     }
     fn rule(&self) -> &'static str {
-        "grid: case = (source shape c x h x w in 1..D^3, content kind in {index-valued, random, special values}); every case runs Tensor::triple, flatten, get_flat, single, get_triple and reshape towards every target in 1..D^3, every factorisation of the element count, and (1,1,k)-style targets with k in {n-1, n, n+1, 2n}: equal-count targets must preserve the bit-exact row-major sequence, record a shape that matches the nesting, and round-trip to the identity; unequal-count targets (3D->3D, vector->3D, 3D->vector) must be refused by panic. random: source dims up to 12. large: element counts {4095..4097, 8192, 16383..16385, 20000, 30030, 32768, 65536, 65537, 100000, 131072} in a random factorisation c x h x w (mostly non-square planes), same checks."
+        "grid: case = (source shape c x h x w in 1..D^3, content kind in {index-valued, random, special values incl. -0, denormals, +-MAX, NaN, +-inf}); every case runs Tensor::triple, flatten, get_flat, single, get_triple and reshape towards every target in 1..D^3, every factorisation of the element count, and (1,1,k)-style targets with k in {n-1, n, n+1, 2n}: equal-count targets must preserve the bit-exact row-major sequence, record a shape that matches the nesting, and round-trip to the identity; unequal-count targets (3D->3D, vector->3D, 3D->vector) must be refused by panic. random: source dims up to 12. large: element counts {4095..4097, 8192, 16383..16385, 20000, 30030, 32768, 65536, 65537, 100000, 131072} in a random factorisation c x h x w (mostly non-square planes), same checks."
     }
     fn assumptions(&self) -> Vec<&'static str> {
         vec!["Single->Single reshape with a different length is outside the refusal clause (vector<->3-D and 3-D<->3-D only); whatever it returns must still carry a recorded shape that matches its data"]
